@@ -4,6 +4,7 @@
    MODEL (crash = keep the store, boot, catch up, continue) and compares with the uninterrupted run. -/
 import MW.Drv.Led
 import MW.Model.Persist
+import MW.Spec.Persist
 namespace MW.Drv.Crash
 open MW MW.Model.Ledger MW.Model.Persist
 
@@ -123,6 +124,10 @@ def stepCore (c : Core) (args : List String) : Core × String × List Core :=
       let (_, _, acc) := mids (c0.led.node.tipHeight + 1) c0 [c0]
       (c', if r.ok then "ok" else "err", acc)
   | ["commits"] => (c, toString c.commits, [])
+  -- histories with background work (import / removal): the ledger model does not cover them; their
+  -- observations are `rec` ops that only the implementation's twin-vs-crash comparison looks at
+  | "rec" :: _ => (c, "ok", [])
+  | ["mkimport", _, _] | ["import", _] | ["importstep", _] | ["remove", _] | ["removerun", _] => (c, "ok", [])
   | "params" :: _ | "tx" :: _ | "block" :: _ | "submit" :: _ | ["detach"] =>
     let (l', out) := Led.step c.led args
     ({ c with led := l' }, out, [])
@@ -182,7 +187,11 @@ def step (st : St) (args : List String) : St × String :=
   | ["commits"] => (st, toString st.core.commits)
   | _ =>
     let i := st.hist.size
-    let (c', out, pts) := stepCore st.core args
+    let (c', out0, pts) := stepCore st.core args
+    -- the invariants the partial theorems assume (BestInv, SyncWf, KsSeq, exact key cache) are
+    -- evaluated on every state of every history: a violation shows up as a disagreement
+    let inv := Spec.Persist.bestInvB c'.P c'.V && Spec.Persist.ksSeqB c'.P && decide (c'.V.keys = c'.P.ks)
+    let out := if inv then out0 else "MODEL-INVARIANT-BROKEN " ++ out0
     ({ core := c', hist := st.hist.push args, outs := st.outs.push out,
        cmp := st.cmp.push (isObservation args && caughtUp c'),
        crashPts := st.crashPts ++ pts.map (fun p => (i + 1, p)) },
